@@ -18,7 +18,7 @@ import z3
 
 from pyvc.core import (SV, SInt, SBool, SSeq, Obj, Val, VNone, BoolS, IntS, Cls, to_val, to_int, cls_of, sub, cls_const,
                        class_axioms, PyRaise)
-from pyvc.driver import Ob
+from pyvc.driver import Ob, cover_hyps
 from pyvc.ground import Q
 from pyvc.env import _MISSING
 from pyvc.expr import SCls
@@ -96,7 +96,7 @@ def leaf_obligations(chk, clsname, base):
     results = I.run_function(func, mk, max_paths=3000)
     for pi, (path, out, obls, writes, cur) in enumerate(results):
         _leaf_one(chk, func, clsname, pi, path, out, cur)
-    chk.add(Ob(func, "cover", "pre", results[0][0].hyps + class_axioms(), z3.BoolVal(True), expect="sat"))
+    chk.add(Ob(func, "cover", "pre", cover_hyps(results, class_axioms()), z3.BoolVal(True), expect="sat"))
     chk.trusted.update(I.assumed_used)
 
 
